@@ -385,9 +385,13 @@ def native_matching_weights(cname, size, rnd):
             for a, b, d in m.edges():
                 for f in d['fault_ids']:
                     got[f] = d['weight']
-            for q in range(code.n):
-                if q in got and not np.isclose(got[q], w[q], rtol=1e-6, atol=1e-6):
-                    return '%s: edge of qubit %d has weight %r, LLR of that sector\'s flip marginal is %r (direction %s, deformation %s %s)' % (nm, q, got[q], float(w[q]), direction, defo, nkw)
+            # how the decoder numbers the faults of its graph is its own business (it may build the graph in any column order and map the result back):
+            # the clause is about the weights the sector's matcher works with, i.e. the multiset of edge weights = the multiset of that sector's LLRs
+            gw = sorted(float(v) for v in got.values()); ww = sorted(float(v) for v in w)
+            if len(gw) == len(ww) and not np.allclose(gw, ww, rtol=1e-6, atol=1e-6):
+                k_ = int(np.argmax(np.abs(np.array(gw) - np.array(ww))))
+                return '%s works with edge weights %s..., the LLRs of that sector\'s flip marginals are %s... (direction %s, deformation %s %s)' % (
+                    nm, [round(v, 4) for v in gw[max(0, k_ - 1):k_ + 3]], [round(v, 4) for v in ww[max(0, k_ - 1):k_ + 3]], direction, defo, nkw)
     return None
 
 
@@ -454,6 +458,10 @@ def bounded(tier, seed):
             ev += 1; nt.add((d, cname, size, direction, rate))
             if why:
                 viol.append(dict(obligation='C05.bounded.prior[%s]' % d, input=dict(decoder=d, code=cname, size=list(size), deformation=None, direction=list(direction), error_rate=rate, syndrome=syn), detail=why))
+    # known finding F-C05-e is visited on every run: a matching decoder configured with a flip marginal above 1/2 (negative weights)
+    why, syn = native_valid('MatchingDecoder', 'Toric2DCode', (3, 3), None, {}, rnd, 2, direction=(1 / 3, 1 / 3, 1 / 3), p=0.9); ev += 1
+    if why:
+        viol.append(dict(obligation='C05.bounded.prior[MatchingDecoder]', input=dict(decoder='MatchingDecoder', code='Toric2DCode', size=[3, 3], deformation=None, direction=[1 / 3, 1 / 3, 1 / 3], error_rate=0.9, syndrome=syn), detail=why))
     for cname, size in (('Toric2DCode', (3, 3)), ('Planar2DCode', (3, 2)), ('RotatedPlanar2DCode', (3, 3))):
         why = native_matching_weights(cname, size, rnd); ev += 1
         if why:
